@@ -145,4 +145,25 @@ def install(E):
         hints=dict(common, path='modelcheck'), owner='C03',
         note='object formula, F=None or a container of sets: nothing that existed before the call is written (also when TypeError is raised); '
              'the result is a new set of states of the caller\'s structure'), FILE)
-    return ['_remove_state_subformulas', '_checkQuantifiedFormula', 'CTLS.modelcheck']
+    from .contracts_parser import lark_tok, lark_chr, lark_val
+    from .formula import FML
+    from .heap import SV
+
+    class _TextCtx(object):
+        """the object-formula clauses, read at the formula the parser returns"""
+        def __init__(self, c):
+            self.__dict__['c'] = c
+
+        def __getattr__(self, name):
+            if name == 'formula':
+                return SV('F', FML(lark_val(self.__dict__['c'].formula.t)))
+            return getattr(self.__dict__['c'], name)
+
+    E.register(Contract(
+        'CTLS.modelcheck(text)', 'ctls', [('kripke', 'kripke'), ('formula', 'text'), ('parser', 'none'), ('F', 'opt:iterRefSets')], ret='set',
+        requires=lambda c: mc_req(_TextCtx(c)), ensures=lambda c: mc_ens(_TextCtx(c)),
+        touches={'sets', 'fd', 'fv', 'fs_len', 'fs_el', 'dd', 'dv', 'rels', 'fld__next', 'fld__labels', 'fld_S0'},
+        hints=dict(common, path='modelcheck', may_raise=('TypeError', 'pkg.UnexpectedToken', 'pkg.UnexpectedCharacters')), owner='C03',
+        note='text formula, default parser: frame and safety as for the object leg, about the formula object the parser returns; '
+             'parse errors propagate as the package\'s ParserError subclasses'), FILE)
+    return ['_remove_state_subformulas', '_checkQuantifiedFormula', 'CTLS.modelcheck', 'CTLS.modelcheck(text)']
